@@ -50,6 +50,7 @@ type Harness struct {
 	What     string    `json:"what"`
 	Covers   []string  `json:"covers"`
 	Assume   []string  `json:"assumptions"`
+	Lemmas   string    `json:"lemmas,omitempty"`
 	Quick    TierConf  `json:"quick"`
 	Thorough *TierConf `json:"thorough,omitempty"`
 }
@@ -235,6 +236,7 @@ var forbiddenPkgs = map[string]string{
 // ---- check ----
 
 type harnessOutcome struct {
+	lemmas []lemmaResult
 	solver string
 	h      Harness
 	res    *interp.Result
@@ -325,6 +327,30 @@ func cmdCheck(args []string) int {
 		o := runHarness(ld, h, tc, *workers, *solver, *trace, *tier)
 		outs = append(outs, o)
 		classify(o, ld, known, scratch, *noReplay, *prop)
+		if h.Lemmas != "" {
+			var notes []string
+			for _, s := range o.res.Samples {
+				notes = append(notes, s.Notes...)
+			}
+			lr, viol, inc := checkLemmas(h.Lemmas, notes, *tier == "thorough")
+			o.lemmas = lr
+			for _, v := range viol {
+				iv := interp.Violation{Harness: h.Func, AssertID: "lemma", Msg: v, Tags: map[string]string{}}
+				rec := vrec{v: iv, repro: "reproduced"}
+				rec.replay = writeReplay(*prop, o, iv)
+				if k := matchKnown(known, *prop, iv); k != nil {
+					rec.known = k
+					o.knownV = append(o.knownV, rec)
+				} else {
+					o.newV = append(o.newV, rec)
+					o.status = "violation"
+				}
+			}
+			if len(inc) > 0 && o.status != "violation" {
+				o.status = "inconclusive"
+			}
+			o.why = append(o.why, inc...)
+		}
 		fmt.Fprintf(os.Stderr, "[%s] %s: %s paths=%d steps=%d queries=%d (sat %d, unsat %d) solver=%.1fs wall=%.1fs %s\n",
 			h.Property, h.Name, o.status, o.res.Paths, o.res.Steps, o.res.Solver.Queries, o.res.Solver.Sat, o.res.Solver.Unsat,
 			o.res.Solver.Duration.Seconds(), o.res.Wall.Seconds(), strings.Join(o.why, "; "))
